@@ -856,6 +856,9 @@ def check_liveness(scn, res):
 
     dead |= {n for n, i in last_inc.items() if (n, i) in ended}       # filters that ended on their own are not live
     sinks = [f['name'] for f in scn['filters'] if f.get('sources') and any(e == 0 for _, e, _, _ in sources_of(f)) and alive(f['name'])]
+
+    if scn.get('c06_listeners_live'):      # "every live consumer": '?' listeners of a publisher whose dead consumer is not a required output
+        sinks += [f['name'] for f in scn['filters'] if f.get('sources') and all(e == 1 for _, e, _, _ in sources_of(f)) and f['name'] not in dead]
     seen  = {}
 
     for e in res.log:
@@ -1114,6 +1117,10 @@ def check_lineage(scn, res):
         bad('run-id', 'events carry different run ids')
 
     return viols
+
+
+def oracle_c05_integrity(scn, res):
+    return check_order(scn, res) + check_sets(scn, res), outcome(res)
 
 
 def oracle_c18(scn, res):
